@@ -79,9 +79,33 @@ ADD = {
  "C19": ("; find_workflow evaluated over 10 directory-tree rows incl. termination at the root; no read of the invoking directory at import time; the group callback's locations evaluated; find_workflow on trees with symbolic links and '..'; duplicate names within one map() call; cluster scripts cd into the target's directory", W),
  "C20": ("; cli.main evaluated over the full flag x config x env tables for backend (4) and colour (18), verbosity reaches logging; create_backend evaluated; accounting switch decides sacct also under failure; config file location; overwriting a stored value with one that compares equal across types (yes/1, 0/no); the workflow file's location is not symlink-resolved", W),
 }
+# rules added in DESIGN 9.11 / 9.12 (rounds 6 and 7)
+ADD2 = {
+ "C01": "; should_run on files stamped ahead of the local clock and dated 1970; a spec assigned with `target << spec` after construction; declared names with colon/brackets/wildcards/decomposed accents taken literally; the hash store follows the project configuration whatever cli.main layers on top and whatever the environment holds",
+ "C02": "; TrackingBackend as a session (status/submit/status/submit-with-prerequisite/cancel for a target that is submitted again in the same process); rejected submissions on a project with history, with every further on/off option of `gwf run` switched on",
+ "C03": "; _norm_path on arbitrary file names (colon, brackets, `~`, `$`, blanks, decomposed accents)",
+ "C04": "; acyclic workflows with a redundant edge in all definition orders; arbitrary file names",
+ "C05": "; the backend states of the schedulers' command-line model under the identity the environment vs the uid reports",
+ "C06": "; L8: the job runs in the target's working directory also when that is the project directory, and each submit command is started once",
+ "C07": "; suspended/held jobs count as alive; `qstat -f -xml` with running jobs nested under their queue instance; the prerequisite of a target submitted again in the same process is the new job",
+ "C08": "; R5: the decision table for each job state (success or no record falls back to the files); executors run queued calls late (late-binding closures)",
+ "C09": "; a submit command is started once (lost reply) and a time limit kills and reaps the child; a truncated scheduler answer raises; re-submission of a tracked target is persisted; nothing that needs a rejected target is handed over afterwards",
+ "C10": "; the script reaches the submit command's standard input byte for byte (text-mode codec); cd also for targets whose working directory is the project directory; text that reaches the configuration through a KEY=VALUE option is coerced like `config set`",
+ "C11": "; TrackingBackend session (re-submitted prerequisite); every not-complete prerequisite is handed over (C02.R1/R2)",
+ "C12": "; core accounting event by event incl. a fork refused once (EAGAIN) with a cancellation at every later await; click callbacks and parameter types of the package; a hand-written core pool is evaluated under four cancellation schedules (poolmodel)",
+ "C13": "; the task's output as two pipes with a capacity (StreamReader limits, sequential draining, waiting for the exit with undrained pipes = hang); the Scheduler object as `gwf workers` builds it without a terminal; SIGCHLD disposition; the pool's tables only grow",
+ "C14": "; no code on the pool's path restores the default disposition of SIGPIPE; the pool's tables only grow; worker tasks are cancelled only by cancel_task/kill (helper tasks may be)",
+ "C15": "; Target.protected / flattened_outputs on names with brackets and wildcards against a disk holding exactly those files",
+ "C16": "; a disk model for touch (existence, modification times on a ticking clock in a non-UTC zone, symbolic links): verdict from the final state",
+ "C17": "; the project is found from getcwd() whatever $PWD says; the command is evaluated on the kind of iterable filter_names really returns; patterns matching nothing; the pool's tables only grow",
+ "C18": "; the hash store follows use_spec_hashes of the project configuration (3 settings x 2 environments, one all-\"0\"); the scheduler's decision table",
+ "C19": "; attrs converters applied to defaults, templates built the way attrs builds them; find_workflow evaluated with the arguments cli.main passes; $PWD rows",
+ "C20": "; the config session runs on the object cli.main builds; KEY=VALUE text coerced like `config set`; backend factories with real signatures (inspect.signature modelled)",
+}
 checks = []
 for pid, (text, note, tech) in sorted(P.items()):
     extra = ADD.get(pid)
+    text = text + ADD2.get(pid, "")
     if extra:
         text = text + extra[0]
         if extra[1]:
